@@ -45,6 +45,7 @@ def check(c: Check):
     clause_f(c)
     clause_g(c)
     clause_h(c)
+    clause_i(c)
     from .common import sweep_records
     sweep_records(c, 'C10-rec', ['exactly_lib.util.process_execution', 'exactly_lib.util.file_utils', 'exactly_lib.impls.program_execution', 'exactly_lib.type_val_prims.program'], floor=8)
 
@@ -995,3 +996,40 @@ def clause_h(c: Check):
                              'was accumulated' % (desc, 'operands %s' % got if got is not None else 'a value that is '
                                                   'not built from the operands', want), f.loc())
     c.floor('C10-h', 'operand lists the transformer-list resolvers are evaluated on', n, 19)
+
+
+# ---------------------------------------------------------------- i
+def clause_i(c: Check):
+    """the text of stdin is produced ONCE, by the actor that feeds it to the process: the code that runs the action to
+    check (the ATC executor and the step executors around it) hands the resolved input on and does not itself read the
+    text (`.contents()`, `write_to`, `as_str`, `as_file`, `as_lines` of the stdin source).  A text source that is the
+    output of a program is produced anew at every reading until it is frozen: a second reader makes the program run
+    twice and the process reads the output of the second run."""
+    ix = c.ix
+    n_mod = 0
+    READS = ('contents', 'write_to', 'as_str', 'as_file', 'as_lines')
+    for mn in ('exactly_lib.execution.partial_execution.impl.atc_execution',
+               'exactly_lib.execution.partial_execution.impl.executor',
+               'exactly_lib.execution.impl.phase_step_executors'):
+        m = ix.module(mn)
+        n_mod += 1
+        for n in ast.walk(m.tree):
+            if isinstance(n, ast.Attribute) and n.attr in READS:
+                # <something>.stdin.<read>  or  <stdin-named value>.<read>
+                v = n.value
+                while isinstance(v, ast.Call):
+                    v = v.func.value if isinstance(v.func, ast.Attribute) else v.func
+                chain = []
+                while isinstance(v, ast.Attribute):
+                    chain.append(v.attr)
+                    v = v.value
+                if isinstance(v, ast.Name):
+                    chain.append(v.id)
+                if any('stdin' in x for x in chain):
+                    f = m.enclosing_func(n)
+                    c.bad('C10-i', 'stdin-read-outside-the-actor/%s' % (f.key if f else mn),
+                          '`%s` reads the text of stdin while the action to check is being run: the actor reads it again, '
+                          'and a text that is the output of a program is produced by running the program a second time' %
+                          unparse(n)[:70], '%s:%d' % (m.relpath, n.lineno))
+    c.ok('C10-i', 'stdin-is-read-by-the-actor-only', detail='%d modules of the executor' % n_mod)
+    c.floor('C10-i', 'executor modules scanned for readings of stdin', n_mod, 3)
